@@ -23,6 +23,7 @@ def n(tier, quick, thorough):
 def c01(tier, seed):
     w = n(tier, 150, 2000)
     runs = [dict(cfg=c, traces=w, drain=True, notime=True, preds=C01_PREDS) for c in ("p11", "pnat", "p21n", "prst", "p22")]
+    runs[0]["scheds"] = ["c01_triggered_check_after_budget"]
     runs.append(dict(cfg="poneway", traces=n(tier, 60, 500), drain=True, notime=True, preds=C01_PREDS))
     runs.append(dict(cfg="prole", traces=n(tier, 60, 500), drain=True, notime=True, preds=C01_PREDS))
     plan = {"runs": runs,
